@@ -16,7 +16,7 @@ COMMON_NOTE = (
 CLAIMED = {
     "C01": dict(
         technique="machine-checked proof in Coq (field-algebra theorems for placement and gradient covariance, structural induction for the layer-building loop, lra for the advance rule) + correspondence by vm_compute + end-to-end picture comparison of real builds",
-        text="Unbounded theorems: the viewBox->font placement is user o flip o uniform-scale-and-centre (over any field); the advance rule with half-even rounding; the reversed-pre-order/depth-stack loop of _painted_layers returns exactly the source's items as trees in source order for every picosvg-normal source (mutual induction), no assertion reachable; linear gradients are carried by any invertible affine, the default p2 is the SVG projection, uniform transforms map gradient circles to circles. The models are tied to color_glyph.py by evaluating them in Coq on random Fractions / generated picosvg documents. The composition (incl. reuse rewrite, palette, quantisation) is checked end to end: generated source sets x configurations x {glyf,cff,cff2}_colr_1 are compiled by the real code, reloaded, and every glyph's COLR paint graph is compared layer by layer (boundary distance, group alpha structure, colours, gradient geometry) with the placed source.",
+        text="Unbounded theorems: the viewBox->font placement is user o flip o uniform-scale-and-centre (over any field); the advance rule with half-even rounding; the reversed-pre-order/depth-stack loop of _painted_layers returns exactly the source's items as trees in source order for every picosvg-normal source (mutual induction), no assertion reachable; linear gradients are carried by any invertible affine, the default p2 is the SVG projection, uniform transforms map gradient circles to circles. The models are tied to color_glyph.py by evaluating them in Coq on random Fractions / generated picosvg documents. The composition (incl. reuse rewrite, palette, quantisation) is checked end to end: generated source sets x configurations x {glyf,cff,cff2}_colr_1 are compiled by the real code, reloaded, and every glyph's COLR paint graph is compared layer by layer (boundary distance, group alpha structure, colours, gradient geometry) with the placed source. A corpus of directed reuse sets (one-axis scales and mirrors with an offset at integral coordinates, gradients with their own transform) runs first; CFF flavours are built as .otf so that CFF/CFF2 outlines are really exercised; the ClipBox must not cut a painted layer.",
         ref="DESIGN.md 8 C01",
     ),
     "C02": dict(
@@ -61,7 +61,7 @@ CLAIMED = {
     ),
     "C10": dict(
         technique="machine-checked proof in Coq (round-trip theorems for the csv dialect pair, the %04x codec and GlyphMapping rows, with refutation witnesses for the side conditions) + correspondence by vm_compute + field-coverage table from the source",
-        text="Unbounded theorems: read_text(write_rows rs) = rs for all rows whose fields have no CR/LF and no unquoted leading space (both conditions shown necessary by machine-checked counter-examples = known finding F4); parse_hex(hex04 n) = n for every n; parse_row(csv_row g) = g for every GlyphMapping incl. the empty codepoint list. The csv model (a state machine) is tied to Python's csv module and to glyphmap.csv_line/load_from by evaluating it in Coq on random rows and arbitrary text. Config precedence and write/load symmetry are exercised for every FontConfig field x {neither,file,flag,both} with real absl flags; a table extracted from config.py's ast requires every field to be written, read, flagged and passed on. File-name recovery, glyph-name legality/distinctness (known finding F3), parts JSON and response files are checked on samples. Glyph names: a Gallina model of glyph_name (un-hashed names) with the theorem that different sequences over code points above U+0020 get different names except for the g_-spelled pair (F3), tied to the code by evaluation in Coq; every listed value of every config field is written and reloaded.",
+        text="Unbounded theorems: read_text(write_rows rs) = rs for all rows whose fields have no CR/LF and no unquoted leading space (both conditions shown necessary by machine-checked counter-examples = known finding F4); parse_hex(hex04 n) = n for every n; parse_row(csv_row g) = g for every GlyphMapping incl. the empty codepoint list. The csv model (a state machine) is tied to Python's csv module and to glyphmap.csv_line/load_from by evaluating it in Coq on random rows and arbitrary text. Config precedence and write/load symmetry are exercised for every FontConfig field x {neither,file,flag,both} with real absl flags; a table extracted from config.py's ast requires every field to be written, read, flagged and passed on. File-name recovery, glyph-name legality/distinctness (known finding F3), parts JSON and response files are checked on samples. Glyph names: a Gallina model of glyph_name (un-hashed names) with the theorem that different sequences over code points above U+0020 get different names except for the g_-spelled pair (F3), tied to the code by evaluation in Coq; every listed value of every config field is written and reloaded. File names: a Gallina scanner equal to the regex of codepoints.from_filename on stems that match at their first character (evaluated in Coq against the code), with the theorem that every conventional stem (with or without emoji_u, '-' or '_' separators, any hexadecimal printer) reads back as its sequence.",
         ref="DESIGN.md 8 C10",
     ),
     "C11": dict(
@@ -71,7 +71,7 @@ CLAIMED = {
     ),
     "C12": dict(
         technique="machine-checked proof in Coq (glyph-order construction of _copy_svg keeps donor glyph ids and permutes; {gid:05d} naming round trip; advance and placement identities of the extract/generate steps) + correspondence by vm_compute + real maximum_color CLI runs compared name-keyed with their inputs",
-        text="Unbounded theorems: when _copy_svg's order construction succeeds every donor SVG glyph sits at its donor glyph id and the new order is a permutation of the target's (for any glyph type, any increasing gid ranges); the file stem written for a glyph id reads back as that id for every id, so the glyphmap maps each per-glyph SVG to the original glyph; width=0 with viewBox 0 0 w (asc-desc) gives advance exactly w; an OT-SVG glyph extracted under translate(0,asc) lands on its font-space mirror image with scale 1 and no shift; an SVG generated under viewBox=glyph_region is rebuilt with the identity placement. The order model is tied to the real _copy_svg (run on fake fonts) by evaluation in Coq, incl. the IndexError case. End to end through the real `python -m nanoemoji.maximum_color`: fonts nanoemoji emits (COLRv0/v1, picosvg, untouchedsvg; sequences) and hand-made-style COLR/SVG fonts (kerning, mark, ligature and contextual lookups, two palettes, no space glyph, colour glyphs whose name order differs from gid order) x {--bitmaps, --colr_version 0/1, --keep_glyph_names}: cmap, advances, outlines, GSUB/GPOS/GDEF meaning, name, line metrics, the original colour table and CPAL are compared name-keyed; every colour table must cover the same glyphs and COLR and OT-SVG must paint the same picture per glyph; the output must satisfy the C07 validity predicates; the stripped build must equal the kept-names build minus names. Documented limits (CBDT bitmap wider than 255 px, signed-byte line metrics, a palette variable with two opacities in COLRv0) count as rejections only when the input justifies them. CBDT pixels are not compared.",
+        text="Unbounded theorems: when _copy_svg's order construction succeeds every donor SVG glyph sits at its donor glyph id and the new order is a permutation of the target's (for any glyph type, any increasing gid ranges); the file stem written for a glyph id reads back as that id for every id, so the glyphmap maps each per-glyph SVG to the original glyph; width=0 with viewBox 0 0 w (asc-desc) gives advance exactly w; an OT-SVG glyph extracted under translate(0,asc) lands on its font-space mirror image with scale 1 and no shift; an SVG generated under viewBox=glyph_region is rebuilt with the identity placement. The order model is tied to the real _copy_svg (run on fake fonts) by evaluation in Coq, incl. the IndexError case. End to end through the real `python -m nanoemoji.maximum_color`: fonts nanoemoji emits (COLRv0/v1, picosvg, untouchedsvg; sequences) and hand-made-style COLR/SVG fonts (kerning, mark, ligature and contextual lookups, two palettes, no space glyph, colour glyphs whose name order differs from gid order) x {--bitmaps, --colr_version 0/1, --keep_glyph_names}: cmap, advances, outlines, GSUB/GPOS/GDEF meaning, name, line metrics, the original colour table and CPAL are compared name-keyed; every colour table must cover the same glyphs and COLR and OT-SVG must paint the same picture per glyph; the output must satisfy the C07 validity predicates; the stripped build must equal the kept-names build minus names. Documented limits (CBDT bitmap wider than 255 px, signed-byte line metrics, a palette variable with two opacities in COLRv0) count as rejections only when the input justifies them. CBDT pixels are not compared. Also proved: _copy_colr's glyph order keeps every target glyph id and names each glyph once iff the donor's layer names are fresh in the target.",
         ref="DESIGN.md 8 C12",
     ),
     "C13": dict(
@@ -86,12 +86,12 @@ CLAIMED = {
     ),
     "C15": dict(
         technique="machine-checked proof in Coq (loop-invariant proof of the palette slot loop for every finite colour set) + correspondence by vm_compute",
-        text="Unbounded theorem: for every finite list of colours the deque loop of uniq_sort_cpal_colors never indexes an empty deque, ends empty, and returns exactly the specified palette (indexed colours at their index, unindexed ascending in the lowest free slots, black gaps, length max(|set|, maxidx+1) > 0, conflict => error). Tied to the code by evaluating the model in Coq on the property's small universe (exhaustive in the thorough tier) and random large sets; the implementation's outputs are judged by an independent executable spec. Whole COLRv1/COLRv0 fonts (same RGBA at several indices and unindexed, translucent indexed colours, currentColor): CPAL against an independent spec and every layer's palette index and alpha against its declaration.",
+        text="Unbounded theorem: for every finite list of colours the deque loop of uniq_sort_cpal_colors never indexes an empty deque, ends empty, and returns exactly the specified palette (indexed colours at their index, unindexed ascending in the lowest free slots, black gaps, length max(|set|, maxidx+1) > 0, conflict => error). Tied to the code by evaluating the model in Coq on the property's small universe (exhaustive in the thorough tier) and random large sets; the implementation's outputs are judged by an independent executable spec. Whole COLRv1/COLRv0 fonts (same RGBA at several indices and unindexed, translucent indexed colours, currentColor): CPAL against an independent spec and every layer's palette index and alpha against its declaration. Also proved: the palette is a function of the set of colours (permuting or repeating them changes nothing) for any strict weak rgba order that separates different unindexed colours; whole-font oracle includes gradients whose stops declare palette indices.",
         ref="DESIGN.md 8 C15",
     ),
     "C16": dict(
         technique="machine-checked proof in Coq (abstract-field theorems about a Gallina model of paint.transformed) + correspondence by vm_compute",
-        text="Theorems over an arbitrary field about the executable model of paint.transformed (exact denotation per branch, encodability), constants regenerated from fixed.py and proved equal to the OpenType ranges; the model (also of the gradient transforms and the uniform/residual split) is tied to the code by evaluating it inside Coq on the stratified inputs the real functions ran on, and the implementation's outputs are judged by executable property predicates. The affine each emitted transform paint reports (gettransform, used by traversals, clip boxes and COLRv0 components) is compared with the model for every generated case.",
+        text="Theorems over an arbitrary field about the executable model of paint.transformed (exact denotation per branch, encodability), constants regenerated from fixed.py and proved equal to the OpenType ranges; the model (also of the gradient transforms and the uniform/residual split) is tied to the code by evaluating it inside Coq on the stratified inputs the real functions ran on, and the implementation's outputs are judged by executable property predicates. The affine each emitted transform paint reports (gettransform, used by traversals, clip boxes and COLRv0 components) is compared with the model for every generated case. What is written from the paints is checked too: the COLR record of every emitted transform paint is decoded by the format definitions and compared with the paint's affine, and the gradient svg._apply_paint writes under nested transform paints and an outer reuse transform is compared with the paint tree at sample points and circles.",
         ref="DESIGN.md 8 C16",
     ),
     "C17": dict(
